@@ -191,6 +191,19 @@ pub fn alphabet(n: usize, c: &AlphaCfg) -> Vec<Dev> {
             }
         }
     }
+    if c.aci && n >= 2 {
+        // non-letters that differ only in bit 0x20 (`^`/`~`, `@`/`` ` ``, `[`/`{{`) are NOT case twins: a case-insensitive variant
+        // spelled with one set, a later variant spelled with the other
+        devs.push(dev("v0.serialize=\"^@_\"+ascii_case_insensitive + v1.serialize=\"~`\u{7f}\"", &["serA0", "aci0", "serA1"], |s| {
+            if s.variants.len() < 2 {
+                return false;
+            }
+            s.variants[0].serialize.insert(0, "^@_".into());
+            s.variants[0].aci = Some(Aci::Bare);
+            s.variants[1].serialize.insert(0, "~`\u{7f}".into());
+            true
+        }));
+    }
     for st in &c.styles {
         let st2 = st.to_string();
         devs.push(dev(format!("serialize_all={:?}", st), &["style"], move |s| {
